@@ -18,6 +18,7 @@ import (
 	"strconv"
 	"strings"
 	"sync"
+	"syscall"
 	"testing"
 	"time"
 
@@ -93,6 +94,15 @@ func c13ConcBody(c *c13Ctx, writers [][]c13Pkt, inbound []c13Pkt, nReaders, perR
 }
 
 func c13ConcBodyKey(c *c13Ctx, ks c13KeySpec, writers [][]c13Pkt, inbound []c13Pkt, nReaders, perReader int, lateInject bool) {
+	c13ConcBodyRefuse(c, ks, writers, inbound, nReaders, perReader, lateInject, nil)
+}
+
+// c13ConcBodyRefuse: refuse (may be nil) is the inner socket's answer to its n-th WriteTo (1-based):
+// a non-nil error means the datagram is refused and nothing goes on the wire, as a UDP socket does
+// with EMSGSIZE/ENOBUFS/EPERM. A writer goes on with its next packet after an error, like quic-go
+// does for these errors. The clauses are the same: every WriteTo returns, every packet whose
+// WriteTo reported success is on the wire exactly once, intact, with the original size reported.
+func c13ConcBodyRefuse(c *c13Ctx, ks c13KeySpec, writers [][]c13Pkt, inbound []c13Pkt, nReaders, perReader int, lateInject bool, refuse func(n int) error) {
 	key := ks.bytes()
 	inner := vnet.NewPacketConn("inner", 3000)
 	_ = inner.SetDeadline(time.Time{}) // no deadline; touches the fake once before any thread exists (its lazy initialisation is not thread-safe when free-running)
@@ -107,6 +117,16 @@ func c13ConcBodyKey(c *c13Ctx, ks c13KeySpec, writers [][]c13Pkt, inbound []c13P
 		return
 	}
 	ob.RandSrc = rand.New(rand.NewSource(13)) // pinned salt stream; salts are read back off the wire
+	refusals := 0
+	if refuse != nil {
+		inner.WriteErr = func(n int, _ vnet.Packet) error {
+			err := refuse(n)
+			if err != nil {
+				refusals++
+			}
+			return err
+		}
+	}
 
 	inject := func(i int, p c13Pkt) {
 		if p.junk {
@@ -160,23 +180,46 @@ func c13ConcBodyKey(c *c13Ctx, ks c13KeySpec, writers [][]c13Pkt, inbound []c13P
 	wg.Wait()
 
 	// ---- oracles ----
-	// every WriteTo reports the original packet's size
+	// every WriteTo reports the original packet's size; an error is only acceptable for a datagram
+	// the inner socket refused (at most one reported error per refusal)
 	var written []c13Pkt
+	var accepted []bool // parallel to written: WriteTo reported success
+	errs := 0
 	for w := range writers {
 		if len(wres[w]) != len(writers[w]) {
 			c.fail("writer %d completed %d of %d writes", w, len(wres[w]), len(writers[w]))
 		}
+		var outs []string
 		for i, r := range wres[w] {
 			p := writers[w][i]
-			if r.err != nil || r.n != len(p.payload) {
+			switch {
+			case r.err != nil && refuse != nil:
+				errs++
+				outs = append(outs, "err")
+			case r.err != nil || r.n != len(p.payload):
 				c.fail("WriteTo(%s, %d bytes) = (%d, %v)", p.id, len(p.payload), r.n, r.err)
+				outs = append(outs, "bad")
+			default:
+				outs = append(outs, "ok")
 			}
+			written = append(written, p)
+			accepted = append(accepted, r.err == nil)
 		}
-		written = append(written, writers[w]...)
+		for i := len(wres[w]); i < len(writers[w]); i++ { // never attempted: still owed to the wire
+			written = append(written, writers[w][i])
+			accepted = append(accepted, true)
+		}
+		if refuse != nil {
+			c.logf("writer %d results: %s", w, strings.Join(outs, ","))
+		}
+	}
+	if errs > refusals {
+		c.fail("%d WriteTo calls reported an error but the inner socket refused only %d datagrams", errs, refusals)
 	}
 	// every wire datagram is well-formed and is exactly one written packet, to its destination
 	var order []string
 	remaining := append([]c13Pkt(nil), written...)
+	remAccepted := append([]bool(nil), accepted...)
 	for _, s := range inner.Sent {
 		got, ok := c13RefOpen(key, s.Data)
 		if !ok {
@@ -198,9 +241,12 @@ func c13ConcBodyKey(c *c13Ctx, ks c13KeySpec, writers [][]c13Pkt, inbound []c13P
 		}
 		order = append(order, remaining[found].id)
 		remaining = append(remaining[:found], remaining[found+1:]...)
+		remAccepted = append(remAccepted[:found], remAccepted[found+1:]...)
 	}
-	for _, p := range remaining {
-		c.fail("written packet %s never appeared on the wire", p.id)
+	for i, p := range remaining {
+		if remAccepted[i] {
+			c.fail("written packet %s never appeared on the wire", p.id)
+		}
 	}
 	c.logf("wire order: %s", strings.Join(order, ","))
 	// every read returns exactly one injected valid packet, intact, with its source address
@@ -411,6 +457,91 @@ func c13TwoSockets(c *c13Ctx) {
 	}
 }
 
+// Refused datagrams (added after the independently seeded change C13-7: an early return on the
+// inner socket's write error kept writeMutex locked, so every later WriteTo on the wrapped socket
+// blocked). The new dimension is the inner socket's ANSWER to a write: a UDP socket refuses single
+// datagrams with transient errors (EMSGSIZE for an over-MTU probe, ENOBUFS, EPERM) and the caller
+// writes on through the same wrapped socket. Alphabet: which of the writes are refused x the error.
+type c13ErrKind struct {
+	Name string
+	Err  error
+}
+
+var c13WriteErrKinds = []c13ErrKind{
+	{"EMSGSIZE", &net.OpError{Op: "write", Net: "udp", Err: os.NewSyscallError("sendto", syscall.EMSGSIZE)}},
+	{"ENOBUFS", &net.OpError{Op: "write", Net: "udp", Err: os.NewSyscallError("sendto", syscall.ENOBUFS)}},
+	{"EPERM", &net.OpError{Op: "write", Net: "udp", Err: os.NewSyscallError("sendto", syscall.EPERM)}},
+}
+
+const c13RefuseHistoryLen = 4 // packets of the single writer; every non-empty subset of them is refused
+
+// c13RefusedHistory: ONE writer sends four packets of different sizes (a large one followed by small
+// ones: a stale write buffer would show) and the inner socket refuses exactly the writes of mask
+// (bit i = i-th WriteTo of the inner socket); a reader works on the same socket meanwhile.
+func c13RefusedHistory(c *c13Ctx, mask int, kind c13ErrKind) {
+	writers := [][]c13Pkt{{
+		{id: "a", payload: c13Fill(40, 0xA0), addr: c13Addr(4001)},
+		{id: "b", payload: c13Fill(1452, 0xB0), addr: c13Addr(4002)},
+		{id: "c", payload: c13Fill(9, 0xC0), addr: c13Addr(4003)},
+		{id: "d", payload: c13Fill(1, 0xD0), addr: c13Addr(4004)},
+	}}
+	inbound := []c13Pkt{
+		{id: "v1", payload: c13Fill(33, 0x10), addr: c13Addr(5001)},
+		{id: "j5", payload: c13Fill(5, 0x70), addr: c13Addr(5999), junk: true},
+		{id: "v2", payload: c13Fill(7, 0x20), addr: c13Addr(5002)},
+	}
+	c13ConcBodyRefuse(c, c13KeySpec{5, -1}, writers, inbound, 1, 2, false, func(n int) error {
+		if n >= 1 && n <= c13RefuseHistoryLen && mask&(1<<(n-1)) != 0 {
+			return kind.Err
+		}
+		return nil
+	})
+}
+
+// c13RefusedNth: TWO writers with two packets each; the inner socket refuses its nth WriteTo, so
+// the schedule decides whose packet is hit and who is waiting for the write lock at that moment.
+func c13RefusedNth(c *c13Ctx, nth int, kind c13ErrKind) {
+	writers := [][]c13Pkt{
+		{{id: "a", payload: c13Fill(40, 0xA0), addr: c13Addr(4001)}, {id: "b", payload: c13Fill(9, 0xB0), addr: c13Addr(4002)}},
+		{{id: "c", payload: c13Fill(100, 0xC0), addr: c13Addr(4003)}, {id: "d", payload: c13Fill(1, 0xD0), addr: c13Addr(4004)}},
+	}
+	inbound := []c13Pkt{{id: "v1", payload: c13Fill(33, 0x10), addr: c13Addr(5001)}}
+	c13ConcBodyRefuse(c, c13KeySpec{5, -1}, writers, inbound, 1, 1, false, func(n int) error {
+		if n == nth {
+			return kind.Err
+		}
+		return nil
+	})
+}
+
+// c13RefusedScenarios: every non-empty refusal mask over the four writes of one writer, and every
+// position of one refusal among the four writes of two writers. Quick: one error kind per scenario
+// (rotating, all three kinds occur); thorough: every mask/position x every error kind.
+func c13RefusedScenarios(thorough bool) []*explore.Scenario {
+	var scs []*explore.Scenario
+	kindsOf := func(i int) []c13ErrKind {
+		if thorough {
+			return c13WriteErrKinds
+		}
+		return []c13ErrKind{c13WriteErrKinds[i%len(c13WriteErrKinds)]}
+	}
+	for mask := 1; mask < 1<<c13RefuseHistoryLen; mask++ {
+		for _, kind := range kindsOf(mask) {
+			scs = append(scs, &explore.Scenario{Name: fmt.Sprintf("1w4p-1r-inner-refuses-writes-mask%04b-%s", mask, kind.Name),
+				Quick: explore.Bounds{P: 2, FreeSwitch: true}, Thorough: explore.Bounds{P: 3, FreeSwitch: true},
+				Body: func(e *vsched.Exec) { c13RefusedHistory(&c13Ctx{e: e}, mask, kind) }})
+		}
+	}
+	for nth := 1; nth <= 4; nth++ {
+		for _, kind := range kindsOf(nth) {
+			scs = append(scs, &explore.Scenario{Name: fmt.Sprintf("2w2p-1r-inner-refuses-write%d-%s", nth, kind.Name),
+				Quick: explore.Bounds{P: 2, FreeSwitch: true}, Thorough: explore.Bounds{P: 3, FreeSwitch: true},
+				Body: func(e *vsched.Exec) { c13RefusedNth(&c13Ctx{e: e}, nth, kind) }})
+		}
+	}
+	return scs
+}
+
 func c13Scenarios() []*explore.Scenario {
 	var cap []*explore.Scenario
 	for _, ks := range c13CapacityKeys {
@@ -424,8 +555,13 @@ func c13Scenarios() []*explore.Scenario {
 	}...)
 }
 
+func c13AllScenarios() []*explore.Scenario {
+	// a replay looks its scenario up by name: offer the full (thorough) list then
+	return append(c13Scenarios(), c13RefusedScenarios(os.Getenv("VERIF_TIER") == "thorough" || os.Getenv("VERIF_REPLAY") != "")...)
+}
+
 func TestVerifC13Conc(t *testing.T) {
-	explore.Main(t, "C13", c13Scenarios())
+	explore.Main(t, "C13", c13AllScenarios())
 }
 
 // ---- free-running -race pass -------------------------------------------------------------------
